@@ -57,6 +57,10 @@ enum Fault {
 	NotJson,
 	JsonNoMessage,
 	UnknownIdResponse,
+	/// a response that bears the id the client reserved for the unsubscribe call of its open stream (nobody asked), and
+	/// later the server's own close notification for that stream: neither is a reason to give up the connection; if the
+	/// client survives, everything outstanding completes
+	ReservedIdResponseThenServerClose,
 	/// a batch reply whose ids are hostile: the value is the id text
 	BatchReplyIds(&'static str),
 	EmptyArray,
@@ -178,11 +182,13 @@ async fn run_spec(spec: &Spec) -> Out {
 
 	// an open stream
 	let mut stream_task = None;
-	if spec.open_stream || matches!(spec.fault, Fault::SendErrorOnUnsubscribe | Fault::DuplicateSubIdAnswer) {
+	let mut stream_call_id: Option<Value> = None;
+	if spec.open_stream || matches!(spec.fault, Fault::SendErrorOnUnsubscribe | Fault::DuplicateSubIdAnswer | Fault::ReservedIdResponseThenServerClose) {
 		let c = client.clone();
 		let t = tokio::spawn(async move { c.subscribe::<Value, _>("sub", rpc_params!["stream"], "unsub").await });
 		if let Ok(Some((_, WireMsg::Single(q)))) = tokio::time::timeout(Duration::from_secs(5), srv.next_msg()).await {
 			srv.push_text(ok_response(q.id.as_ref().unwrap_or(&Value::Null), json!("stream-1")));
+			stream_call_id = q.id.clone();
 		}
 		if let Ok(Ok(Ok(mut s))) = tokio::time::timeout(Duration::from_secs(5), t).await {
 			srv.push_text(sub_notif("m", &json!("stream-1"), json!(1)));
@@ -321,8 +327,33 @@ async fn run_spec(spec: &Spec) -> Out {
 			Some("Unparseable message".into())
 		}
 		Fault::JsonNoMessage => {
-			srv.push_text(json!({"hello": nonce}).to_string());
+			// short, or long with multi-byte characters at every alignment around the 1 KiB mark (an error text that is cut to
+			// size has to be cut at a character boundary)
+			let text = match spec.seed % 3 {
+				0 => json!({"hello": nonce}).to_string(),
+				k => {
+					let unit = if k == 1 { "é" } else { "😀" };
+					let base = json!({"hello": nonce, "pad": ""}).to_string().len();
+					let shift = (spec.seed / 3 % 8) as usize;
+					let pad = format!("{}{}", "a".repeat(shift), unit.repeat((1100 - base) / unit.len()));
+					json!({"hello": nonce, "pad": pad}).to_string()
+				}
+			};
+			srv.push_text(text);
 			Some(nonce.clone())
+		}
+		Fault::ReservedIdResponseThenServerClose => {
+			// the id after the subscribe call's id is the one set aside for the unsubscribe call
+			let reserved = match &stream_call_id {
+				Some(Value::Number(n)) => json!(n.as_u64().unwrap_or(0) + 1),
+				Some(Value::String(t)) => json!((t.parse::<u64>().unwrap_or(0) + 1).to_string()),
+				_ => json!(1),
+			};
+			srv.push_text(ok_response(&reserved, json!("nobody asked")));
+			tokio::time::sleep(Duration::from_millis(1 + spec.seed % 3)).await;
+			srv.push_text(sub_close("m", &json!("stream-1"), json!(format!("closed by the server {nonce}"))));
+			expect_dead = false;
+			None
 		}
 		Fault::UnknownIdResponse => {
 			srv.push_text(ok_response(&json!(770_000_000u64 + (spec.seed & 0xffff)), json!("nobody asked")));
@@ -752,7 +783,7 @@ fn gen_spec(seed: u64, directed: Option<(Fault, bool, bool)>) -> Spec {
 				3 => Fault::PeerClose,
 				4 => Fault::NotJson,
 				5 => Fault::JsonNoMessage,
-				6 => Fault::UnknownIdResponse,
+				6 => if r.bool() { Fault::UnknownIdResponse } else { Fault::ReservedIdResponseThenServerClose },
 				7 | 8 => Fault::BatchReplyIds(*r.pick(&HOSTILE_IDS)),
 				9 => Fault::EmptyArray,
 				_ => Fault::Generated(gen_server_bytes(&mut r)),
@@ -804,7 +835,7 @@ fn all_specs(seed: u64, n_random: u64) -> Vec<Spec> {
 	let mut v = Vec::new();
 	// fault enumeration: every fault kind x schedule variant x several histories
 	let mut faults: Vec<Fault> =
-		vec![Fault::SendError, Fault::SendThenRecvError, Fault::PingSendError, Fault::DuplicateSubIdAnswer, Fault::SendErrorOnUnsubscribe, Fault::RecvError, Fault::PeerClose, Fault::NotJson, Fault::JsonNoMessage, Fault::UnknownIdResponse, Fault::EmptyArray];
+		vec![Fault::SendError, Fault::SendThenRecvError, Fault::PingSendError, Fault::DuplicateSubIdAnswer, Fault::SendErrorOnUnsubscribe, Fault::RecvError, Fault::PeerClose, Fault::NotJson, Fault::JsonNoMessage, Fault::UnknownIdResponse, Fault::ReservedIdResponseThenServerClose, Fault::EmptyArray];
 	for ids in HOSTILE_IDS {
 		faults.push(Fault::BatchReplyIds(ids));
 	}
